@@ -19,13 +19,27 @@ import (
 // impossible dates, junk where an atom is expected, ...): a source unit is the product of some hundred choices, so
 // even rare invalid choices leave almost no unit valid; "cold" cases take none of them and are damaged by the
 // mutations only.
+//
+// "warm" cases sit in between: at most warm invalid choices are taken for the whole unit (each site is three times
+// as likely to take one as in a hot case), so that the single defect of the text is reached by the stages behind
+// the checks that the many defects of a hot case fail first.
 type g struct {
-	rt  *rapid.T
-	hot bool
+	rt   *rapid.T
+	hot  bool
+	warm *int // remaining invalid choices of a warm case (nil: not a warm case)
 }
 
 // bad is chance for a deliberately invalid choice.
-func (x g) bad(pct int) bool { return x.hot && x.chance(pct) }
+func (x g) bad(pct int) bool {
+	if x.warm != nil {
+		if *x.warm > 0 && x.chance(3*pct) {
+			*x.warm--
+			return true
+		}
+		return false
+	}
+	return x.hot && x.chance(pct)
+}
 
 // pickv picks from valid, in hot cases sometimes from invalid.
 func (x g) pickv(valid, invalid []string) string {
@@ -642,13 +656,22 @@ func (x g) base(target string) (string, string) {
 // genInput draws one input for the target.
 func genInput(rt *rapid.T, target string) ([]byte, []string) {
 	x := g{rt: rt}
-	x.hot = x.chance(30)
+	x.hot = x.chance(40)
+	if x.hot && x.chance(55) {
+		// warm: otherwise built like a cold case, with a budget of one or two invalid choices (see bad)
+		budget := x.n(1, 2)
+		x.warm = &budget
+		x.hot = false
+	}
 	text, src := x.base(target)
 	labels := []string{src}
 	if src == "src:grammar" {
-		if x.hot {
+		switch {
+		case x.warm != nil:
+			labels = append(labels, "grammar:warm")
+		case x.hot:
 			labels = append(labels, "grammar:hot")
-		} else {
+		default:
 			labels = append(labels, "grammar:cold")
 		}
 	}
